@@ -50,7 +50,11 @@ CHECKS = {
                "DESIGN.md §6 C06"),
     "C17": irc("C17", "LookupSound is evaluated by TLC on the real GetSession classification of every id 0..max+2 after every "
                "entry (every prefix of every history is a lagging node), EndedSessionGone and the recipient-exists predicate on "
-               "every step; the expiry set is checked by a dedicated probe around the threshold.", "DESIGN.md §6 C17"),
+               "every step; the expiry set is checked by a dedicated probe around the threshold. HTTP level (checks/irc_http.py): "
+               "lookups, DELETE and 'receives nothing further' on the real long polls of a complete node. Expiry stage "
+               "(checks/c17_expiry.py): design spec Expiry.tla (TLC exhaustive + liveness); the timer loop of main() on real 1- and "
+               "3-node binaries driven through HTTP with the leader stopped/killed; recordings validated by TLC (ExpiryTrace.tla) "
+               "with inferred sweep ticks.", "DESIGN.md §6 C17, §11.2"),
     "C01": irc("C01", "K real replicas (different creation times, own output streams) are fed every history through the real "
                "FSM.applyRobustMessage in lock-step and compared byte for byte (ids, data, recipients; full reflection-based "
                "state); histories come from TLC (IRCMC simulation) and the seeded generator and are biased to >=2 pseudo-clients, "
